@@ -414,6 +414,11 @@ func ReadConfOrDenial(r io.Reader) (AgMessage, error) {
 
 // WriteIntentDenied writes intent denied message with reason
 func WriteIntentDenied(w io.Writer, reason string) error {
+	// The reason is a diagnostic carried in a one-byte-length string. A denial
+	// must still be delivered when the text is longer, so only the text is cut.
+	if len(reason) > 255 {
+		reason = reason[:255]
+	}
 	m := AgMessage{
 		MsgType: IntentDenied,
 		Data: MessageData{
